@@ -25,6 +25,13 @@ NATIVE PREDICATE PROTOCOL
 """
 
 import itertools
+import os
+import sys
+
+_here = os.path.dirname(os.path.abspath(__file__))
+if _here not in sys.path:
+    sys.path.insert(0, _here)
+
 
 from terms import (NIL, TRUE, FAIL, CUT, mklist, vars_of, map_vars, canon,
                    term_to_goal, name_arity)
@@ -54,8 +61,32 @@ def _deref(t, b):
     return t
 
 
-def _unify(a, b, bind, trail):
-    """unification without occurs check, binding into `bind`, logging on `trail`"""
+def _occurs(v, t, bind):
+    """does variable v occur in t (under the bindings)?"""
+    stack = [t]
+    n = 0
+    while stack:
+        t = stack.pop()
+        while t[0] == "var":
+            if t == v:
+                return True
+            x = bind.get(t)
+            if x is None:
+                break
+            t = x
+        if t[0] == "fun":
+            n += 1
+            if n > 100000:
+                return True
+            stack.extend(t[2])
+    return False
+
+
+def _unify(a, b, bind, trail, sto=None):
+    """unification without occurs check, binding into `bind`, logging on `trail`.
+    If `sto` is a list, a marker is appended to it whenever a binding creates a
+    cyclic term (i.e. the unification is "subject to occurs check", where ISO
+    leaves the result undefined); the binding is made all the same."""
     stack = [(a, b)]
     n = 0
     while stack:
@@ -77,9 +108,13 @@ def _unify(a, b, bind, trail):
         if ta == "var":
             if tb == "var" and a == b:
                 continue
+            if sto is not None and tb == "fun" and _occurs(a, b, bind):
+                sto.append(a)
             bind[a] = b
             trail.append(a)
         elif tb == "var":
+            if sto is not None and ta == "fun" and _occurs(b, a, bind):
+                sto.append(b)
             bind[b] = a
             trail.append(b)
         elif ta == "fun":
@@ -88,7 +123,7 @@ def _unify(a, b, bind, trail):
             n += 1
             if n > 200000:
                 raise RefLimit("unification too large (cyclic terms?)")
-            stack.extend(zip(a[2], b[2]))
+            stack.extend(zip(reversed(a[2]), reversed(b[2])))     # pop order = left to right
         elif a != b:
             return False
     return True
@@ -170,9 +205,17 @@ class RefEngine(object):
         self._ids = itertools.count(1)
         self._anon = itertools.count(1)
         self.steps = 0        # steps used by the last solve()
+        self.check_sto = False   # if True, self.sto lists the cyclic bindings made by the last solve()
+        self.sto = []
+
+    resolve = staticmethod(resolve)      # resolve(term, bindings) -> fully dereferenced term
 
     # ------------------------------------------------------------ loading
     def consult(self, program, overwrite=True):
+        """add compiled ("static") clauses.  All clauses of one name/arity in
+        `program` form one group (own cut scope).  overwrite=True replaces the
+        definitions of exactly the name/arity keys present in `program`;
+        overwrite=False appends the new group after the existing ones."""
         groups = {}
         for head, body in program:
             key = name_arity(head)
@@ -321,6 +364,8 @@ class RefEngine(object):
         bind = {}
         trail = []
         cps = []
+        self.sto = []
+        sto = self.sto if self.check_sto else None
         ids = self._ids
         steps = 0
         FAILF = (FAIL, 0, 0, None)
@@ -390,7 +435,20 @@ class RefEngine(object):
                             if r is None:
                                 r = m[v] = ("var", next(ids))
                             return r
-                        if _unify(cp[2], map_vars(head, ren), bind, trail):
+                        rhead = map_vars(head, ren)
+                        if sto is not None and head[0] == "fun" and len(head[2]) > 1:
+                            # ISO calls a unification STO if SOME order of solving the
+                            # equations meets the occurs check: also try other argument
+                            # orders (right to left; plain-variable head arguments first)
+                            ga, ha = cp[2][2], rhead[2]
+                            n_ = len(ha)
+                            vf = sorted(range(n_), key=lambda i: ha[i][0] != "var")
+                            for order in (range(n_ - 1, -1, -1), vf):
+                                mark = len(trail)
+                                _unify(("fun", "$", tuple(ga[i] for i in order)),
+                                       ("fun", "$", tuple(ha[i] for i in order)), bind, trail, sto)
+                                undo(mark)
+                        if _unify(cp[2], rhead, bind, trail, sto):
                             depth = cp[5] + 1
                             if depth_limit is not None and depth > depth_limit:
                                 raise RefLimit("depth limit %d exceeded" % depth_limit)
@@ -410,7 +468,7 @@ class RefEngine(object):
                         f = facts[i]
                         # logical update view: the snapshot is enumerated even
                         # if a fact was retracted after the call started
-                        if _unify(cp[2], self._rename(f.term) if f.nvars else f.term, bind, trail):
+                        if _unify(cp[2], self._rename(f.term) if f.nvars else f.term, bind, trail, sto):
                             frame = cp[6]
                             failed = False
                     elif kind == _NATIVE:
@@ -422,7 +480,7 @@ class RefEngine(object):
                             continue
                         ok = True
                         for v, t in delta.items():
-                            if not _unify(v, t, bind, trail):
+                            if not _unify(v, t, bind, trail, sto):
                                 ok = False
                                 break
                         if ok:
@@ -437,14 +495,14 @@ class RefEngine(object):
                         else:
                             cp[4] = i + 1
                         f = facts[i]
-                        if f.alive and _unify(cp[2], self._rename(f.term) if f.nvars else f.term, bind, trail):
+                        if f.alive and _unify(cp[2], self._rename(f.term) if f.nvars else f.term, bind, trail, sto):
                             self._remove(cp[5], f)
                             frame = cp[6]
                             failed = False
                     elif kind == _FINDALL:
                         # [_FINDALL, tl, bag, results, nxt]
                         cps.pop()
-                        if _unify(cp[2], mklist(cp[3]), bind, trail):
+                        if _unify(cp[2], mklist(cp[3]), bind, trail, sto):
                             frame = cp[4]
                             failed = False
                     continue
@@ -477,13 +535,13 @@ class RefEngine(object):
                         frame = (term_to_goal(t), len(cps) if opaque else cb, depth, nxt)
                         continue
                     if name == "=" and n == 2:
-                        if _unify(args[0], args[1], bind, trail):
+                        if _unify(args[0], args[1], bind, trail, sto):
                             frame = nxt
                         else:
                             failed = True
                     elif name == "\\=" and n == 2:
                         mark = len(trail)
-                        ok = _unify(args[0], args[1], bind, trail)
+                        ok = _unify(args[0], args[1], bind, trail, sto)
                         undo(mark)
                         if ok:
                             failed = True
